@@ -255,7 +255,7 @@ def run(ctx):
         for r in recs:
             check_scenario(ctx, r["chain"], r["start"], r, stats)
         ctx.sample({"spec_behaviour": _brief(recs[len(recs) // 2])})
-    trace = c2s(ctx, 3000 if ctx.thorough else 400, stats)
+    trace = c2s(ctx, 8000 if ctx.thorough else 400, stats)
     ctx.trace_check("Trace_Variables", "Trace_Variables.cfg", trace,
                     lambda r: vl.start_kind(vl.dec(r["start"]["c"]))
                     if all(e["k"] == "var" for e in r["chain"]) else "nested")
